@@ -73,6 +73,14 @@ Theorem lists_partition : forall s v,
   In s all_suites -> In v all_versions -> negotiable s v = true -> chk_partition s = true.
 Proof. exact L_partition. Qed.
 
+(* beyond the property (all known ids with a registered meaning, negotiable or not): an id whose
+   record-layer settings, accessor names or membership in the lists consulted by the record layer, the
+   key derivation and the version filter deviate from its name can never be negotiated.  (Today exactly
+   0x003E, 0x0040, 0x0068, 0x006A: in aes*Suites but in no MAC list; reported in the evidence notes.) *)
+Theorem static_defects_not_negotiable : forall s v,
+  In s all_suites -> In v all_versions -> chk_static s = false -> negotiable s v = false.
+Proof. exact L_static_defects. Qed.
+
 (* History: until /repo commit "fix: AEAD suites 0x00A3/0x00A5 must not be listed as HMAC-SHA384
    suites" the MAC parts of the last four theorems were refuted at s = 163 = 0x00A3
    TLS_DHE_DSS_WITH_AES_256_GCM_SHA384, v = 3 (in sha384Suites and in aeadSuites); this file then
